@@ -370,6 +370,7 @@ func (c *FnCtx) loopHeader(b *ssa.BasicBlock, l *Loop, fwd []*ssa.BasicBlock) {
 			}
 			o := c.obligeAt(p.Index, c.edgePred(p, b), "invariant-entry", t, fmt.Sprintf("loop%d/inv%d/from-b%d", l.Ordinal, i+1, p.Index))
 			o.Props = cl.Props
+			o.Pos = cl.Where
 		}
 		for i, a := range autos {
 			c.obligeAt(p.Index, c.edgePred(p, b), "autoinv-entry", fmt.Sprintf("(%s %s %s)", a.op, c.val(a.phi.Edges[idx]).T, a.k), fmt.Sprintf("loop%d/auto%d", l.Ordinal, i+1))
@@ -431,6 +432,7 @@ func (c *FnCtx) checkBackEdge(from, hdr *ssa.BasicBlock) {
 		}
 		o := c.obligeAt(from.Index, guard, "invariant-preserved", t, fmt.Sprintf("loop%d/inv%d/from-b%d", l.Ordinal, i+1, from.Index))
 		o.Props = cl.Props
+		o.Pos = cl.Where
 	}
 	for i, a := range c.autoInvariants(l) {
 		c.obligeAt(from.Index, guard, "autoinv-preserved", fmt.Sprintf("(%s %s %s)", a.op, c.val(a.phi.Edges[idx]).T, a.k), fmt.Sprintf("loop%d/auto%d", l.Ordinal, i+1))
@@ -444,6 +446,7 @@ func (c *FnCtx) checkBackEdge(from, hdr *ssa.BasicBlock) {
 		if err0 == nil && err1 == nil {
 			o := c.obligeAt(from.Index, guard, "decreases", fmt.Sprintf("(and (>= %s 0) (< %s %s))", m0.T, m1.T, m0.T), fmt.Sprintf("loop%d/from-b%d", l.Ordinal, from.Index))
 			o.Props = l.Spec.Decreases.Props
+			o.Pos = l.Spec.Decreases.Where
 		} else {
 			if err0 != nil {
 				c.E.specError(c.Name, l.Spec.Decreases, err0)
